@@ -623,12 +623,20 @@ class Interp:
             g = self.rule.global_value(self, node.id)
             if g is not None:
                 return [(st, g)], []
+            stmts = self.m.assigns.get(self.module, {}).get(node.id) or []
+            if len(stmts) == 1 and isinstance(stmts[0], (ast.Assign, ast.AnnAssign)) and isinstance(stmts[0].value, ast.Constant) and isinstance(stmts[0].value.value, str):
+                # a module-level name bound once to a string literal (a mode flag, a message): that string
+                return [(st, const(stmts[0].value.value))], []
             return [(st, AV("unk", tags=frozenset({f"global:{node.id}"})))], []
         if isinstance(node, ast.Attribute):
             vals, raises = self.eval(st, node.value)
             out = []
             for s, base in vals:
                 av = self.rule.getattr(self, s, node, base)
+                if av is None and base.kind == "tuple" and base.typ:
+                    flds = self.m.namedtuple_fields(base.typ)
+                    if flds and node.attr in flds and flds.index(node.attr) < len(base.val):
+                        av = base.val[flds.index(node.attr)]  # a field of a NamedTuple built on this path
                 if av is None:
                     key = None
                     if base.kind == "self":
@@ -1056,6 +1064,25 @@ class Interp:
                                 s3.env[dk] = replace(recv, val=(tuple(sorted(sl2.items(), key=lambda kv: str(kv[0]))), recv.val[1]))
                                 out.append((s3, pos[1]))
                         continue
+                if not self.rule.wants_subscript and isinstance(f, (ast.Name, ast.Attribute)) and "*" not in kw and "**" not in kw:
+                    # Cls(a, b, ..) of a typing.NamedTuple of the repository (no __new__ of its own): the tuple of its fields
+                    qn = self.m.resolve_name(self.module, f) if not (isinstance(f, ast.Name) and self.var(f.id) in s2.env) else None
+                    flds = self.m.namedtuple_fields(qn) if qn else None
+                    if flds and "__new__" not in self.m.classes[qn].methods and len(pos) <= len(flds) and all(k_ in flds for k_ in kw):
+                        dflt = {n_.target.id: n_.value for n_ in self.m.classes[qn].node.body if isinstance(n_, ast.AnnAssign) and isinstance(n_.target, ast.Name) and n_.value is not None}
+                        comps, okc = [], True
+                        for i_, fl_ in enumerate(flds):
+                            if i_ < len(pos):
+                                comps.append(pos[i_])
+                            elif fl_ in kw:
+                                comps.append(kw[fl_])
+                            elif fl_ in dflt and isinstance(dflt[fl_], ast.Constant):
+                                comps.append(const(dflt[fl_].value))
+                            else:
+                                okc = False
+                        if okc:
+                            out.append((s2, AV("tuple", tuple(comps), truth=True, none=False, typ=qn)))
+                            continue
                 if len(pos) == 2 and not kw and ast.unparse(f) in ("typing.cast", "cast") and (self.m.resolve_name(self.module, f) or "").endswith("typing.cast"):
                     out.append((s2, pos[1]))  # typing.cast(T, x) is x
                     continue
